@@ -24,9 +24,9 @@ variable {K : Type} [Field K] [DecidableEq K]
 of `self`, no `smooth` — the model's `DFRD.select`; out-of-range indices raise `IndexError`.  The grid
 must have a point (`NamedSignal(self.frdata[:, :, 0], …)`). -/
 theorem generated_getitem_eq {n : Nat} (G : DFRD K n) (dt : Dt) (rows cols : List Nat) (hn : 0 < n) :
-    Generated.frdGetitem (PyFRD.of G dt) (rows, cols) = (G.select rows cols).map fun R => PyFRD.of R dt := by
+    Generated.frdGetitemData (PyFRD.of G dt) (rows, cols) = (G.select rows cols).map fun R => PyFRD.of R dt := by
   obtain ⟨p, m, ⟨w, g⟩, sm⟩ := G
-  simp only [Generated.frdGetitem, PyFRD.of, PyFRD.frdata, PyFRD.omega, PArr3.getFreq_mk _ _ _ _ _ hn, bind,
+  simp only [Generated.frdGetitemData, PyFRD.of, PyFRD.frdata, PyFRD.omega, PArr3.getFreq_mk _ _ _ _ _ hn, bind,
     Except.bind, DFRD.select]
   by_cases hr : ∀ r ∈ rows, r < p
   · rw [PArr3.takeRows_mk _ _ _ _ _ hr]
@@ -42,8 +42,8 @@ theorem generated_getitem_eq {n : Nat} (G : DFRD K n) (dt : Dt) (rows cols : Lis
 
 /-- on an empty grid `__getitem__` raises (`self.frdata[:, :, 0]`). -/
 theorem generated_getitem_empty_grid (G : DFRD K 0) (dt : Dt) (key : List Nat × List Nat) :
-    Generated.frdGetitem (PyFRD.of G dt) key = .error .indexRange := by
-  simp [Generated.frdGetitem, PyFRD.of, PyFRD.frdata, PArr3.getFreq, bind, Except.bind]
+    Generated.frdGetitemData (PyFRD.of G dt) key = .error .indexRange := by
+  simp [Generated.frdGetitemData, PyFRD.of, PyFRD.frdata, PArr3.getFreq, bind, Except.bind]
 
 
 /-- **`eval`** of a non-interpolating FRD: the function the source text defines (`np.flatnonzero(self.omega
